@@ -70,7 +70,7 @@ def run(ck):
             continue
         seen.add(key)
         ck.report(dict(input=cc.case_line(cases[i]), kind=cases[i]["kind"], place=cases[i]["place"]), oracle=key, key="contact:" + key, what=what)
-    if not fails:
+    if not ck.violations:
         if not ok:
             ck.report(dict(log=ck.proof_res["log"][-3000:]), unchecked="Properties_C06.vo", what="proof obligations of C06 no longer check")
         if broken:
